@@ -843,6 +843,14 @@ class CSSStyleSheet(cssutils.stylesheets.StyleSheet):
             self._cssRules.insert(index, rule)
             self._updateVariables()
 
+        # @top-left etc. belong into @page only
+        elif rule.type == rule.MARGIN_RULE:
+            self._log.error(
+                'CSSStylesheet: A margin rule is only allowed in @page.',
+                error=xml.dom.HierarchyRequestErr,
+            )
+            return
+
         # all other where order is not important
         else:
             if inOrder:
